@@ -238,6 +238,9 @@ pub struct World {
     pub cmds: RefCell<Vec<CmdFut>>,
     // preemption
     points: RefCell<Vec<Pt>>,
+    /// messages in the server task's channel that it has not taken yet, in order (commands and
+    /// fault notices share one channel, so their relative order decides what happens next)
+    pub server_inbox: RefCell<Vec<String>>,
     /// the accept loop is in the middle of `accept_step` (nested events run inside it)
     in_accept_step: Cell<bool>,
     pub unrepresentable_join: Cell<bool>,
@@ -924,6 +927,9 @@ impl World {
         verif::put_worker_local(slot, ls);
         if verif::worker_view(slot).is_none() && self.worker_finished.borrow_mut().insert(slot) {
             self.rec(Rec::WorkerGone { slot });
+            if self.dying.borrow().contains(&slot) {
+                self.server_inbox.borrow_mut().push(format!("Fault({})", verif::worker_idx(slot)));
+            }
         }
     }
 
@@ -964,6 +970,11 @@ impl World {
                 drop(srv);
             }
             None => *self.server.borrow_mut() = Some(srv),
+        }
+        // the server task takes everything off its channel in one turn unless it is in the middle
+        // of a stop (then it waits there and what is queued behind stays queued)
+        if !self.stop_seen.get() || self.server_done.get().is_some() {
+            self.server_inbox.borrow_mut().clear();
         }
         // new worker slots created by this turn get a flag (set: they need a first turn)
         for s in 0..verif::worker_slots() {
@@ -1081,6 +1092,7 @@ impl Sys {
             torn_down: RefCell::new(BTreeSet::new()),
             cmds: RefCell::new(vec![]),
             points: RefCell::new(vec![]),
+            server_inbox: RefCell::new(vec![]),
             in_accept_step: Cell::new(false),
             unrepresentable_join: Cell::new(false),
             turn_pushed: RefCell::new(vec![]),
@@ -1169,6 +1181,7 @@ impl Sys {
                     Ev::Stop(g) => Box::pin(h.stop(g)),
                     _ => unreachable!(),
                 };
+                w.server_inbox.borrow_mut().push(format!("{:?}", ev));
                 w.cmds.borrow_mut().push(CmdFut { kind: ev, fut: Some(fut), done: false, dropped: false });
             }
             Ev::Signal(n) => {
